@@ -206,6 +206,18 @@ func vHarnessPnftIsolation() {
 	if s.A != s.B {
 		vCheck(len(lo) == 0, "C12: tokens of a denom held by an owner lists only that owner's tokens")
 	}
+	// the holder's own listing, asked for with any valid spelling of the holder's address, agrees
+	// field by field with the single-item view
+	la, aerr := s.k.GetPNFTsByDenomIdAndOwner(s.ctx, s.d0.id, vAddrSpelling("spelling", s.A))
+	vCheck(aerr == nil && len(la) == 1, "C12: tokens of a denom held by an owner lists the owner's token exactly once")
+	if aerr == nil && len(la) == 1 {
+		one, gerr := s.k.GetPNFT(s.ctx, s.d0.id, s.t0.id)
+		if gerr == nil {
+			vCover("owner listing compared with the single-item view")
+			vCheck(vAll(la[0].Id == one.Id, la[0].DenomId == one.DenomId, la[0].Owner == one.Owner, la[0].Creator == one.Creator, la[0].Name == one.Name),
+				"C12: the owner listing agrees with the single-item view (same id, denom, owner, creator, name)")
+		}
+	}
 	// minting in the other denom leaves the first token untouched
 	t1 := vID("t1")
 	_, merr := s.ms.MintPNFT(sdk.WrapSDKContext(s.ctx), &types.MsgMintPNFTRequest{DenomId: s.d1.id, Id: t1, Name: "other", Creator: s.B})
